@@ -76,7 +76,30 @@ def to_model(doc):
     return rec(d)
 
 
+def gen_cmdline(rng):
+    """placeholders inside lists nested in lists, later stages given as command-line overrides a[i][j]=value"""
+    rows, cols = rng.choice([2, 3]), rng.choice([2, 3])
+    cells = [(i, j) for i in range(rows) for j in range(cols)]
+    req = set(rng.sample(cells, rng.randrange(1, min(4, len(cells)) + 1)))
+    grid = L([L([SP('required') if (i, j) in req else S(10 * i + j) for j in range(cols)]) for i in range(rows)])
+    where = rng.choice(['top', 'nested', 'bindarg'])
+    if where == 'top':
+        doc, prefix, ptxt = M([['grid', grid]]), ('grid',), 'grid'
+    elif where == 'nested':
+        doc, prefix, ptxt = M([['deep', M([['l', grid]])]]), ('deep', 'l'), 'deep.l'
+    else:
+        doc, prefix, ptxt = M([['fn', SP('bind', func='verif_targets.withreq', args=M([['g', grid]]))]]), ('fn', 'g'), 'fn.g'
+    doc['items'].append(['rec0', SP('call', func='verif_targets.canary', args=M([['x', S(1)]]))])
+    over = [c for c in sorted(req) if rng.random() < 0.6]
+    rng.shuffle(over)
+    args = [f'{ptxt}[{i}][{j}]={100 + 10 * i + j}' for i, j in over]
+    surv = sorted(_join(prefix + c) for c in req if c not in over)
+    return {'cmdline': True, 'texts': [emit.emit(doc, 'block')], 'args': args, 'surviving': surv, 'filled': [[list(prefix + c), 100 + 10 * c[0] + c[1]] for c in over], 'nt': True}
+
+
 def gen_case(rng, tier):
+    if rng.random() < 0.08:
+        return gen_cmdline(rng)
     mk = gen.Marker()
     base = gen.rand_doc(rng, rng.choice([2, 3, 4]), kinds=('s',), pool_s=POOL, hostile=False, marker=mk, p_leaf=0.4)
     # plant placeholders
@@ -210,7 +233,49 @@ def listed_paths(e):
     return None
 
 
+def run_cmdline(case):
+    import verif_targets
+    from awesomeyaml.config import Config
+    verif_targets.reset()
+    text = case['texts'][0] + '# pad\n'
+    got = lib.outcome(lambda: Config.build_from_cmdline(text, *case['args']))
+    vio = []
+    what = f'text={case["texts"][0]!r} args={case["args"]!r}'
+    surv = case['surviving']
+    if surv:
+        lp = listed_paths(got[1]) if got[0] == 'err' else None
+        if got[0] == 'ok':
+            vio.append({'mech': 'builds-with-surviving-placeholder', 'what': f'placeholders survive at {surv} but the build succeeded; {what}'})
+        elif lp is None:
+            vio.append({'mech': 'wrong-failure', 'what': f'placeholders survive at {surv}; build fails differently: {lib.describe(got)}; {what}'})
+        elif sorted(lp) != surv:
+            vio.append({'mech': 'wrong-path-list', 'what': f'surviving placeholders {surv} but the error lists {sorted(lp)}; {what}'})
+        if verif_targets.LOG:
+            vio.append({'mech': 'evaluated-before-check', 'what': f'targets ran although placeholders survive at {surv}; {what}'})
+    else:
+        if got[0] == 'err':
+            vio.append({'mech': 'fails-without-surviving-placeholder', 'what': f'every placeholder was overridden on the command line but the build {lib.describe(got)}; {what}'})
+        else:
+            for path, val in case['filled']:
+                cur = got[1]
+                try:
+                    for c in path:
+                        cur = cur.keywords[c] if hasattr(cur, 'keywords') and not isinstance(cur, (dict, list)) else cur[c]
+                except Exception as e:
+                    cur = e
+                if cur != val:
+                    vio.append({'mech': 'override-landed-elsewhere', 'what': f'{_join(path)} was given {val} on the command line but holds {cur!r}; {what}'})
+                    break
+    res = {'status': 'violation' if vio else 'ok', 'nontrivial': True, 'feats': ['cmdline_overrides', 'surviving=%d' % min(len(surv), 4)], 'sig': util.sig([case['texts'], case['args']])}
+    if vio:
+        res['violations'] = vio
+    return res
+
+
 def run(case):
+    if case.get('cmdline'):
+        _counts['eval_monitor_armed'] += 1
+        return run_cmdline(case)
     import verif_targets
     from awesomeyaml.config import Config
     docs, texts = case['docs'], case['texts']
